@@ -56,8 +56,12 @@ func (s *sweeper) runOpt(texts []string, flags []string, wantLex, wantPar bool, 
 	s.n += len(texts)
 	s.mu.Unlock()
 	gen.ParallelFor(len(texts), 0, func(i int) {
-		dir := filepath.Join(s.root, fmt.Sprintf("j%d", base+i))
+		// every job gets its own module root and the same relative directory, so that the import paths embedded in
+		// the emitted files are identical across jobs (byte comparisons between runs rely on it)
+		jroot := filepath.Join(s.root, fmt.Sprintf("r%d", base+i))
+		dir := filepath.Join(jroot, "w")
 		os.MkdirAll(dir, 0o777)
+		os.WriteFile(filepath.Join(jroot, "go.mod"), []byte("module vt\n\ngo 1.24\n"), 0o666)
 		os.WriteFile(filepath.Join(dir, "g.bnf"), []byte(texts[i]), 0o666)
 		args := append(append([]string{}, flags...), "-o", "o", "g.bnf")
 		o := &GenOut{Idx: i, Text: texts[i], Args: args, Dir: dir}
@@ -80,7 +84,7 @@ func (s *sweeper) runOpt(texts []string, flags []string, wantLex, wantPar bool, 
 			}
 		}
 		f(o)
-		os.RemoveAll(dir)
+		os.RemoveAll(jroot)
 	})
 }
 
@@ -92,4 +96,21 @@ func (s *sweeper) checkCross() {
 		}
 		os.Exit(3)
 	}
+}
+
+// runMD runs one markdown input (file name g.md); the caller removes filepath.Dir(o.Dir).
+func (s *sweeper) runMD(md string, flags []string) *GenOut {
+	s.mu.Lock()
+	k := s.n
+	s.n++
+	s.mu.Unlock()
+	jroot := filepath.Join(s.root, fmt.Sprintf("r%d", k))
+	dir := filepath.Join(jroot, "w")
+	os.MkdirAll(dir, 0o777)
+	os.WriteFile(filepath.Join(jroot, "go.mod"), []byte("module vt\n\ngo 1.24\n"), 0o666)
+	os.WriteFile(filepath.Join(dir, "g.md"), []byte(md), 0o666)
+	args := append(append([]string{}, flags...), "-o", "o", "g.md")
+	o := &GenOut{Text: md, Args: args, Dir: dir}
+	o.Res = s.pool.Run(gen.Job{Dir: dir, Args: args})
+	return o
 }
